@@ -46,6 +46,36 @@ for _n in ("lanelets", "static.rectangle", "dynamic.trajectory.KS", "planning.re
     _mk(_n, "normal", "thorough", tuple(range(1, 13)))
 
 
+@obligation("C01", "roundtrip.writer-among-other-writers", functions=F + ["commonroad/common/writer/file_writer_xml.py:XMLFileWriter.write_to_file",
+                                                                          "commonroad/common/file_writer.py:CommonRoadFileWriter"],
+            bounds="skeleton 'static.rectangle'; the file is written through the public write_to_file of a writer with decimal precision d after a second "
+                   "writer with another precision was constructed; d and the other precision in {1, 4, 12}; tolerance 10^-d of the writing writer")
+def roundtrip_among_writers(V):
+    import os
+    import shutil
+    import tempfile
+
+    from commonroad.common.file_writer import CommonRoadFileWriter
+    from commonroad.common.writer.file_writer_interface import OverwriteExistingFile
+    from commonroad.scenario.scenario import Tag
+
+    warnings.filterwarnings("ignore")
+    xmlrt.REGIME[0] = "normal"
+    ds = (1, 4, 12)
+    d = ds[V.choice("decimal_precision_index", 3)]
+    other = ds[V.choice("other_writer_precision_index", 3)]
+    sc, pps, check, loc = xmlrt.build(V, "static.rectangle")
+    tmp = tempfile.mkdtemp(prefix="c01_")
+    try:
+        w = CommonRoadFileWriter(sc, pps, "author", "affiliation", "source", {Tag.URBAN}, loc, d)
+        CommonRoadFileWriter(sc, pps, "someone", "else", "other", {Tag.HIGHWAY}, loc, other)
+        w.write_to_file(os.path.join(tmp, "out.xml"), OverwriteExistingFile.ALWAYS)
+        sc2, pps2 = xmlrt.read(V, w._file_writer)
+        check(V, sc2, pps2, d)
+    finally:
+        shutil.rmtree(tmp, ignore_errors=True)
+
+
 @obligation("C01", "float_to_str", functions=["commonroad/common/writer/file_writer_xml.py:float_to_str"],
             bounds="every finite float (both notations of its repr), every decimal precision 1..12: the text denotes a value within 10^-d")
 def float_to_str(V):
